@@ -666,12 +666,7 @@ func parseBatchPrep(s string) (vals []string, errN int, ok, cancels bool) {
 // itemIndex finds which item an exec/fallback argument belongs to (items of one batch visit carry
 // pairwise distinct payload tokens; generators guarantee it).
 func (b *batchImpl) itemIndex(v int, arg any) int {
-	var tok int
-	if r, ok := arg.(flyt.Result); ok {
-		tok = tokOf(r.Value())
-	} else {
-		tok = tokOf(arg)
-	}
+	tok := itemKey(arg)
 	b.mu.Lock()
 	defer b.mu.Unlock()
 	for i, t := range b.itemTok[v] {
@@ -679,7 +674,33 @@ func (b *batchImpl) itemIndex(v int, arg any) int {
 			return i
 		}
 	}
+	if tok == 0 {
+		// nil: the Value() of an error-Result item as an Any-style exec function sees it (generators put at most
+		// one such item into a batch, and no nil item next to it)
+		for i, t := range b.itemTok[v] {
+			if t < 0 {
+				return i
+			}
+		}
+	}
 	return 9999
+}
+
+// itemKey identifies an item by its payload: the token at the bottom of any nesting of Results; an error-Result
+// item (no payload) by its error: -1-n for user error n.
+func itemKey(x any) int {
+	if r, ok := x.(flyt.Result); ok {
+		if r.IsError() {
+			es := errStr(r.Error())
+			if strings.HasPrefix(es, "u") {
+				n, _ := strconv.Atoi(es[1:])
+				return -1 - n
+			}
+			return -1
+		}
+		return itemKey(r.Value())
+	}
+	return tokOf(x)
 }
 
 func (e *runtimeEnv) buildBatch(id int, cfg *BatchCfg) flyt.Node {
@@ -720,7 +741,7 @@ func (e *runtimeEnv) buildBatchWith(b *batchImpl) *flyt.BatchNodeBuilder {
 			vals = append(vals, x)
 			r := asResult(x)
 			results = append(results, r)
-			toks = append(toks, tokOf(r.Value()))
+			toks = append(toks, itemKey(x))
 		}
 		if cfg.Shape == "single" && len(toks) > 1 {
 			toks = toks[:1]
